@@ -137,7 +137,9 @@ NEAR_MISS_NAMES = ["abc\n", "abc ", " abc", "a b", "abc\r\n", "abc_", "1abc", ""
                    "a\tb", "12:00", "1", "-1", "1.5", "2001-01-01", "-", "x-", "/*a", "a*/",
                    "null", "TRUE", "false", "a,b", "(a)", "{a", "<a>", "'a'", '"a"', "a'b",
                    "mro:orbit\n", "^image\n", "mro\n:orbit", "^", "a:", ":a", "a:b:c",
-                   "16#FF#", "+", "+a", "a&b", "\xa0a", "a\x0b", "é"]
+                   "16#FF#", "+", "+a", "a&b", "\xa0a", "a\x0b", "é",
+                   # names only the permissive loader takes for a date/time
+                   "12:00+01", "2001-01-01T12:00:00-05", "12:00-05", "10:30-07:30"]
 
 
 @functools.lru_cache(maxsize=None)
@@ -265,8 +267,11 @@ def scalars(dialect):
 def quantities(dialect, inner):
     num = st.one_of(ints(), floats())
     if dialect in ODL_FAMILY:
+        seq1 = st.lists(num, min_size=1, max_size=3).map(lambda l: {"seq": l})
+        seq2 = st.lists(seq1, min_size=1, max_size=3).map(lambda l: {"seq": l})
         val = st.one_of(num, num, num, strings(dialect),
-                        st.sampled_from([True, False, None, {"date": [2001, 1, 1]}]))
+                        st.sampled_from([True, False, None, {"date": [2001, 1, 1]}]),
+                        seq1, seq2)
     else:
         val = st.one_of(num, num, scalars(dialect), inner)
     return st.tuples(val, units(dialect)).map(lambda t: {"q": [t[0], t[1]]})
